@@ -15,8 +15,9 @@
      v_input      token i      |->  the input value of call i                       (what Execute was given)
      v_wire_in    token i      |->  cbor_norm n_in (v_input i)                      (what the server's decoder delivers)
      v_scfg       the plugin of ATP/System.v:  behaviour of token i := the class of CallStep ON THE DECODED VALUE
-                  v_wire_in i; output data of token i is named by i again
-     v_out        the result the caller receives: work-done(o, data named i) |-> ROk o (cbor_norm n_out w), w the
+                  v_wire_in i; the output data of token i is named -1-i
+     v_den        what a token names: i >= 0 the input value of call i, -1-i the decoded output data of call i
+     v_out        the result the caller receives: work-done(o, data named -1-i) |-> ROk o (cbor_norm n_out w), w the
                   serialized output data of CallStep on v_wire_in i             (what the client's decoder delivers)
      vsys_result  what Execute number i has returned, at the data level
 
@@ -24,7 +25,12 @@
    through the one CBOR round trip that the caller of Execute necessarily sees.  Proofs/C05Transparent.v proves that in
    every maximal execution vsys_result = v_spec of the call's own input, and that the server-side CallStep on the
    decoded value is literally the in-process CallStep (same result, same handler log: the handler SAW the same
-   unserialized input). *)
+   unserialized input).
+
+   ATP/SystemVal.v is the same composition as a transition system OF ITS OWN at the value level (client model at
+   payload := gval, real values on the wire and in the results, tokens only as the names under which the server model
+   receives the messages); Proofs/C05Image.v proves that its executions are exactly the images under v_den of the
+   token-level executions interpreted here. *)
 From Coq Require Import List ZArith Bool String.
 From Verif Require Import Base.Prelude Base.Str Base.Float Base.GoVal
   Schema.Regex Schema.Units Schema.Syntax Schema.Ops Schema.Cbor ATP.Msg ATP.System Call.Step.
@@ -78,20 +84,23 @@ Definition v_input (l : list (C.callspec gval)) (t : Z) : gval :=
   else match nth_error l (Z.to_nat t) with Some x => C.cs_input x | None => VNil end.
 Definition v_wire_in (D : vcfg) (l : list (C.callspec gval)) (t : Z) : gval := cbor_norm (v_nin D) (v_input l t).
 
+(* the value a payload of the composition NAMES: token t >= 0 the input value of call t; token -1-t the output data of
+   call t as the client's decoder delivers it: cbor_norm n_out of the serialized output of CallStep on the decoded input *)
+Definition v_outval (D : vcfg) (l : list (C.callspec gval)) (t : Z) : gval :=
+  match v_result D (v_wire_in D l t) with SOk (_, w) => cbor_norm (v_nout D) w | _ => VNil end.
+Definition v_den (D : vcfg) (l : list (C.callspec gval)) (t : Z) : gval :=
+  if (t <? 0)%Z then v_outval D l (-1 - t) else v_input l t.
+
 Definition v_scfg (D : vcfg) (l : list (C.callspec gval)) : scfg :=
   mkSCfg (S.mkCfg (fun t => v_beh (v_result D (v_wire_in D l t))) (v_slow D)
                   (fun st => match alookup st (v_plugin D) with Some _ => true | None => false end)
                   (v_sig_known D))
-         (fun t => t).
+         (fun t => (-1 - t)%Z).
 
-(* what the client's decoder delivers for a result of the token level *)
+(* what the client's decoder delivers for a result of the token level: the payload replaced by the value it names *)
 Definition v_out (D : vcfg) (l : list (C.callspec gval)) (r : C.result Z) : C.result gval :=
   match r with
-  | C.ROk o t =>
-      match v_result D (v_wire_in D l t) with
-      | SOk (_, w) => C.ROk o (cbor_norm (v_nout D) w)
-      | _ => C.RErr C.ErrBadDone            (* unreachable: a work-done is written only for a successful CallStep *)
-      end
+  | C.ROk o d => C.ROk o (v_den D l d)
   | C.RErr e => C.RErr e
   end.
 
